@@ -340,6 +340,8 @@ def _w_sexp(res, p):
                     w = w + amps[i].conjugate() * (e.real if e.imag == 0 else complex(e)) * amps[j]
         return ST.CV.lift(w)
 
+    if p["mode"] == "rho":
+        return _w_sexp_rho(res, p, op, n)
     wants = [quad(f) for f in flags]
     norm2 = sum((ST.zr_real(a.re) * ST.zr_real(a.re) + ST.zr_real(a.im) * ST.zr_real(a.im)) for a in amps)
     real_gso = SP.get_sparse_operator
@@ -404,6 +406,68 @@ def _w_sexp(res, p):
     if okpaths == 0:
         res.inconc("no accepting path")
     res.sample({"symbolic-state expectation": p["label"], "paths": ex.npaths})
+
+
+def _w_sexp_rho(res, p, op, n):
+    """expectation(operator, state) with the state a sparse DENSITY MATRIX all of whose entries are symbolic complex numbers
+    (tr(rho*M) is linear in rho, so the identity is asserted for every matrix rho, Hermitian or not). rho is carried as
+    sum_ij r_ij * E_ij with E_ij REAL scipy unit matrices; products, elementwise products, diagonals, sums and transposes
+    are executed by the real scipy on the E_ij and the REAL operator matrix."""
+    from orquestra.quantum.operators._openfermion_utils import sparse_tools as SP
+    import scipy.sparse as sps
+
+    N = 2**n
+    r = [[ST.complex_var(f"r{i}_{j}") for j in range(N)] for i in range(N)]
+    names = [f"r{i}_{j}_{s}" for i in range(N) for j in range(N) for s in ("re", "im")]
+    Mop = PL.dense({k: complex(v) for k, v in _merge(op).items()}, n)
+    want = 0
+    for i in range(N):
+        for j in range(N):
+            e = Mop[j, i]
+            if e != 0:
+                want = want + r[i][j] * (e.real if e.imag == 0 else complex(e))  # tr(rho M) = sum_ij rho_ij M_ji
+    want = ST.CV.lift(want)
+
+    class _SymRho(_LinSp, sps.spmatrix):
+        shape = (N, N)  # plain attribute: hides spmatrix's shape property (whose setter reshapes)
+        format = "csc"
+
+    parts = [(r[i][j], sps.coo_matrix(([1.0], ([i], [j])), shape=(N, N)).tocsc()) for i in range(N) for j in range(N)]
+    res.d["cuts"].append("sparse density matrix: sum_ij r_ij*E_ij over real scipy unit matrices (an instance of scipy.sparse.spmatrix); the operator is the matrix the REAL get_sparse_operator returns")
+    ex = ST.Explorer(base=[], timeout_ms=10000, logic="auto", max_paths=20)
+    records = []
+
+    def fn(e):
+        got = SP.expectation(SP.get_sparse_operator(op, n), _SymRho(list(parts), (N, N)))
+        try:
+            d = ST.CV.lift(got - want)
+        except Exception as err:
+            records.append(("type", f"result of type {type(got).__name__} is not a symbolic scalar: {err}", None))
+            return got
+        records.append(e.prove(z3.And(ST.zr_real(d.re) == 0, ST.zr_real(d.im) == 0)))
+        return got
+
+    outs = ex.run(fn)
+    res.d["paths"] += ex.npaths
+    res.nontrivial()
+    for o in outs:
+        if o[0] == "exc":
+            res.ob(1)
+            res.inconc(f"the library raised {type(o[1]).__name__}: {str(o[1])[:120]} (symbolic instance: not executable, no verdict)")
+    for rec in records:
+        res.ob(1)
+        if rec[0] == "holds":
+            res.ob(0, 1, "A:z3")
+        elif rec[0] == "violated":
+            vals = {nm: ST.model_value(rec[1], z3.Real(nm)) for nm in names}
+            res.candidate("expectation-is-trace-with-density-matrix", f"{p['label']}: value differs from tr(rho*M) with M the tensor-product matrix", dict(p, clause="expectation-is-trace-with-density-matrix", values=vals), sub="expectation-is-trace-with-density-matrix")
+        elif rec[0] == "type":
+            res.inconc(rec[1])
+        else:
+            res.inconc("z3 unknown", "expectation-is-trace-with-density-matrix")
+    res.d["solver_queries"] += ex.queries
+    res.d["solver_s"] += ex.solver_s
+    res.sample({"symbolic density matrix expectation": p["label"], "paths": ex.npaths})
 
 
 # ---------------------------------------------------------------------------
@@ -508,9 +572,52 @@ class _LinSp:
     def __mul__(self, o):
         if ST.is_sym(o) or isinstance(o, (int, float, complex)):
             return _LinSp([(v * o, S) for v, S in self.parts], self.shape)
-        raise ST.Inconclusive("product of a symbolic sparse matrix with a non-scalar is not modelled")
+        if hasattr(o, "tocsc") and not isinstance(o, _LinSp):
+            # symbolic combination times a REAL scipy matrix: scipy multiplies every part
+            return _LinSp([(v, S * o) for v, S in self.parts], (self.shape[0], o.shape[1]))
+        raise ST.Inconclusive("product of a symbolic sparse matrix with an unmodelled operand")
 
-    __rmul__ = __mul__
+    def __rmul__(self, o):
+        if ST.is_sym(o) or isinstance(o, (int, float, complex)):
+            return _LinSp([(v * o, S) for v, S in self.parts], self.shape)
+        if hasattr(o, "tocsc") and not isinstance(o, _LinSp):
+            return _LinSp([(v, o * S) for v, S in self.parts], (o.shape[0], self.shape[1]))
+        raise ST.Inconclusive("product of an unmodelled operand with a symbolic sparse matrix")
+
+    __matmul__, __rmatmul__ = __mul__, __rmul__
+
+    def dot(self, o):
+        return self.__mul__(o)
+
+    def multiply(self, o):
+        if hasattr(o, "tocsc") and not isinstance(o, _LinSp):
+            return _LinSp([(v, S.multiply(o)) for v, S in self.parts], self.shape)
+        if ST.is_sym(o) or isinstance(o, (int, float, complex)):
+            return self.__mul__(o)
+        raise ST.Inconclusive("elementwise product of a symbolic sparse matrix with an unmodelled operand")
+
+    def _lin(self, f, zero):
+        tot = zero
+        for v, S in self.parts:
+            x = f(S)
+            tot = tot + v * (np.asarray(x).astype(object) if isinstance(x, (np.ndarray, np.matrix)) else (x.real if complex(x).imag == 0 else complex(x)))
+        return tot
+
+    def diagonal(self, k=0):
+        return self._lin(lambda S: np.asarray(S.diagonal(k)).reshape(-1), np.zeros(min(self.shape) - abs(k), dtype=object))
+
+    def sum(self, axis=None):
+        if axis is not None:
+            raise ST.Inconclusive("axis-wise sum of a symbolic sparse matrix is not modelled")
+        return self._lin(lambda S: S.sum(), 0)
+
+    def trace(self, offset=0):
+        return self._lin(lambda S: S.diagonal(offset).sum(), 0)
+
+    def toarray(self, *a, **k):
+        return self.dense_obj()
+
+    todense = toarray
 
     def __neg__(self):
         return _LinSp([(-v, S) for v, S in self.parts], self.shape)
@@ -894,6 +1001,9 @@ def instances(tier, seed):
             if n == 3 and mode == "col":
                 continue
             items.append(("sexp", {"terms": terms, "n": n, "mode": mode, "reverse": reverse, "label": f"symbolic-state expectation {terms} n={n} mode={mode} reverse={reverse}"}))
+    # ... and on a sparse density matrix all of whose entries are symbolic (operators with odd numbers of Y are not symmetric)
+    for terms, n in [([[_ops({0: "Y"}), 1.0]], 1), ([[_ops({0: "Y"}), 1.0], [_ops({1: "X"}), [0.5, -0.25]], [{}, 1.0]], 2), ([[_ops({0: "X", 1: "Y"}), [0.0, 1.0]], [_ops({1: "Z"}), 2.0]], 2)] + ([([[_ops({0: "Z", 2: "Y"}), 0.75], [_ops({1: "X"}), [0.25, -0.5]]], 3)] if tier == "thorough" else []):
+        items.append(("sexp", {"terms": terms, "n": n, "mode": "rho", "reverse": False, "label": f"symbolic density-matrix expectation {terms} n={n}"}))
     for terms, n in [([[_ops({0: "Z"}), 1.0]], 2), ([[_ops({0: "X", 1: "Z"}), [0.0, 1.0]], [_ops({1: "Y"}), 0.5]], 2)] + ([([[_ops({0: "Z"}), 1.0]], 3)] if tier == "thorough" else []):
         for flags in ([False, True], [True, False], [False, False, True]):
             items.append(("sexp", {"terms": terms, "n": n, "mode": "wf", "reverse": False, "flags": flags, "label": f"symbolic-state expectation, one operator object queried with reverse flags {flags}: {terms} n={n}"}))
@@ -951,6 +1061,22 @@ def replay(data):
             return d > 1e-7 * max(1.0, float(np.abs(np.array(M, dtype=complex)).max())), f"Pauli expansion converts back with error {d:.3g}"
         if clause == "expansion-labels":
             return False, "structural (labels) - not replayed numerically"
+        if clause == "expectation-is-trace-with-density-matrix":
+            import scipy.sparse as sps
+            from orquestra.quantum.operators._openfermion_utils.sparse_tools import expectation, get_sparse_operator
+
+            n = p["n"]
+            N = 2**n
+            rho = np.array([[complex(vals.get(f"r{i}_{j}_re", 0.0), vals.get(f"r{i}_{j}_im", 0.0)) for j in range(N)] for i in range(N)])
+            op = op_from(p["terms"])
+            want = np.trace(rho @ PL.dense({k: complex(c) for k, c in _merge(op).items()}, n))
+            worst, detail = 0.0, ""
+            for fmt in ("csc", "csr", "coo"):
+                got = expectation(get_sparse_operator(op, n), sps.coo_matrix(rho).asformat(fmt))
+                d = abs(complex(got) - want)
+                if d > worst:
+                    worst, detail = d, f"{fmt} density matrix: value {got} vs tr(rho*M) {want}"
+            return worst > 1e-9 * max(1.0, abs(want)), detail or "ok"
         if clause in ("expectation-is-quadratic-form", "expectation-raises"):
             from orquestra.quantum.operators import get_expectation_value
             from orquestra.quantum.operators._openfermion_utils.sparse_tools import expectation, get_sparse_operator
